@@ -119,7 +119,8 @@ class FakeVCS:
     def __init__(self, kind="git", tags_all=(), tags_merged=None, status=(), remote="upstream", hooks=None, fail=None,
                  files_probe=None, tags_after_fetch=None):
         """remote: 'upstream' (current branch tracks origin/main), 'url' (only remote.origin.url), None.
-        fail: None | (name, nth) - the nth (0-based) command with that classified name answers with failure.
+        fail: None | (name, nth[, stderr]) - the nth (0-based) command with that classified name answers with failure
+              (exit 1 and a neutral message, or exit 128/255 and the given stderr text, e.g. what the real tool prints).
         hooks: {abs or rel path: (rc, stdout bytes, stderr bytes)}; files_probe(): snapshot of the project at an effect."""
         self.kind = kind
         self.tags_all = list(tags_all)
@@ -157,6 +158,8 @@ class FakeVCS:
             return 1, b"", b"not a repository"
         if self.fail is not None and self.fail[0] == name and self.fail[1] == n:
             entry["ok"] = False
+            if len(self.fail) > 2 and self.fail[2]:
+                return (128 if self.kind == "git" else 255), b"", self.fail[2].encode()
             return 1, b"", ("injected failure of " + name).encode()
         out = b""
         if name == "fetch" and self.tags_after_fetch is not None:
